@@ -2,6 +2,11 @@
 
 package tsdb
 
+import (
+	"github.com/lindb/lindb/internal/linmetric"
+	"github.com/lindb/lindb/metrics"
+)
+
 // Simulation hooks (build tag verif).
 
 // VerifResetFamilyManager replaces the process-wide family manager: a restarted node has no open families.
@@ -13,4 +18,13 @@ func VerifResetFamilyManager() {
 // VerifFlushInFlight returns the number of flush requests the engine's flush checker has queued or running.
 func VerifFlushInFlight(e Engine) int32 {
 	return e.(*engine).dataFlushChecker.(*dataFlushChecker).flushInFlight.Load()
+}
+
+// VerifResetPoolGauges zeroes the live-worker gauges of a database's query pools. The gauges are process-wide
+// (keyed by pool name) and a pool refuses to start workers above its limit: a simulated process death leaves
+// them at the count of the dead process, which a real restart would not.
+func VerifResetPoolGauges(databaseName string) {
+	for _, suffix := range []string{"-filtering", "-grouping", "-scanner"} {
+		metrics.NewConcurrentStatistics(databaseName+suffix, linmetric.StorageRegistry).WorkersAlive.Update(0)
+	}
 }
